@@ -3,6 +3,7 @@ package symex
 import (
 	"crypto/sha256"
 	"go/types"
+	"math"
 	"regexp"
 	"strconv"
 	"strings"
@@ -132,6 +133,26 @@ func init() {
 	// engine is trusted").  An un-overridden matching call is havocked => inconclusive.
 	I["regexp.MustCompile"] = func(m *Machine, fn *ssa.Function, args []Value) Value {
 		return m.newOpaqueObj("regexp", strArg(args[0]))
+	}
+	// btcutil.NewAmount(f): round(f * 1e8) sat, an error for NaN / infinities - computed for constant
+	// arguments (fee rates reported by a node stub are drawn from concrete classes); symbolic: no model
+	I["github.com/btcsuite/btcd/btcutil.NewAmount"] = func(m *Machine, fn *ssa.Function, args []Value) Value {
+		t, ok := args[0].(*smt.Term)
+		if !ok || t.Op != "fpbits" || len(t.Args) != 1 || !t.Args[0].IsConst() {
+			return m.havocCall(fn, args)
+		}
+		f := math.Float64frombits(t.Args[0].U64())
+		if math.IsNaN(f) || math.IsInf(f, 0) {
+			return TupleV{smt.BVC(64, 0), m.newError(smt.StrC("invalid bitcoin amount"), nil)}
+		}
+		v := f * 1e8
+		var r int64
+		if v < 0 {
+			r = int64(v - 0.5)
+		} else {
+			r = int64(v + 0.5)
+		}
+		return TupleV{smt.BVC(64, uint64(r)), &IfaceV{}}
 	}
 	// (*Regexp).FindAllString on a constant pattern and a constant string is computed with the real engine
 	// (symbolic strings: no model - harnesses override the call, see harness/version/compare.go)
